@@ -13,7 +13,8 @@ CONSTANTS
   Params0,       \* initial module parameters
   KeepHist,      \* TRUE: hist records every input (generators); FALSE: stays empty
   GenDepth,      \* generators: behaviour length at which the input history is written out
-  GenDir         \* generators: directory for the emitted behaviours
+  GenDir,        \* generators: directory for the emitted behaviours
+  KindBag        \* generators: set of <<kind, k>> pairs; the multiplicity of a kind is its weight
 
 VARIABLES st, act, res, xfers, hooks, extra, ghost, hist
 vars == <<st, act, res, xfers, hooks, extra, ghost, hist>>
@@ -50,14 +51,14 @@ Apply(m) ==
   /\ hist' = IF KeepHist THEN Append(hist, m) ELSE hist
 
 (* one named action per Go entry point, so that TLC's coverage is per entry point *)
-CreateFixedPriceAuction == \E m \in Inputs("CreateFixed", st, ghost) : Apply(m)
-CreateBatchAuction      == \E m \in Inputs("CreateBatch", st, ghost) : Apply(m)
-CancelAuction           == \E m \in Inputs("Cancel", st, ghost) : Apply(m)
-AddAllowedBidders       == \E m \in Inputs("AddAllowed", st, ghost) : Apply(m)
-UpdateAllowedBidder     == \E m \in Inputs("UpdateAllowed", st, ghost) : Apply(m)
-MsgAddAllowedBidder     == \E m \in Inputs("MsgAddAllowed", st, ghost) : Apply(m)
-PlaceBid                == \E m \in Inputs("Bid", st, ghost) : Apply(m)
-ModifyBid               == \E m \in Inputs("Modify", st, ghost) : Apply(m)
+CreateFixedPriceAuction == \E m \in Inputs("CreateFixed", st, ghost) \cup {x \in Inputs("OddCreate", st, ghost) : x.a = "CreateFixed"} : Apply(m)
+CreateBatchAuction      == \E m \in Inputs("CreateBatch", st, ghost) \cup {x \in Inputs("OddCreate", st, ghost) : x.a = "CreateBatch"} : Apply(m)
+CancelAuction           == \E m \in Inputs("Cancel", st, ghost) \cup Inputs("OddCancel", st, ghost) : Apply(m)
+AddAllowedBidders       == \E m \in Inputs("AddAllowed", st, ghost) \cup {x \in Inputs("OddAllow", st, ghost) : x.a = "AddAllowed"} : Apply(m)
+UpdateAllowedBidder     == \E m \in Inputs("UpdateAllowed", st, ghost) \cup {x \in Inputs("OddAllow", st, ghost) : x.a = "UpdateAllowed"} : Apply(m)
+MsgAddAllowedBidder     == \E m \in Inputs("MsgAddAllowed", st, ghost) \cup {x \in Inputs("OddAllow", st, ghost) : x.a = "MsgAddAllowed"} : Apply(m)
+PlaceBid                == \E m \in Inputs("Bid", st, ghost) \cup Inputs("OddBid", st, ghost) : Apply(m)
+ModifyBid               == \E m \in Inputs("Modify", st, ghost) \cup Inputs("OddModify", st, ghost) : Apply(m)
 BeginBlock              == \E m \in Inputs("Block", st, ghost) : Apply(m)
 Donate                  == \E m \in Inputs("Donate", st, ghost) : Apply(m)
 UpdateParams            == \E m \in Inputs("UpdateParams", st, ghost) : Apply(m)
@@ -69,6 +70,20 @@ Next ==
   \/ PlaceBid \/ ModifyBid \/ BeginBlock \/ Donate \/ UpdateParams \/ GenesisRoundTrip
 
 Spec == Init /\ [][Next]_vars
+
+(* Generators (tlc -simulate): the kind of the next input is drawn from a weighted bag, *)
+(* so that behaviours make progress (blocks, bids) instead of sampling mostly rejected   *)
+(* messages; if nothing of that kind is offered any other kind is taken.                 *)
+AllKinds == {"CreateFixed", "CreateBatch", "Cancel", "AddAllowed", "UpdateAllowed", "MsgAddAllowed",
+             "Bid", "Modify", "Block", "Donate", "UpdateParams", "Genesis",
+             "OddCreate", "OddBid", "OddModify", "OddAllow", "OddCancel"}
+GenNext ==
+  \* (bound variables are evaluated once; a LET would be re-evaluated at every use, and RandomElement re-drawn)
+  \E live \in {{k \in AllKinds : Inputs(k, st, ghost) # {}}} :
+    /\ live # {}
+    /\ \E pick \in {RandomElement({p \in KindBag : p[1] \in live})} :
+         \E m \in {RandomElement(Inputs(pick[1], st, ghost))} : Apply(m)
+GenSpec == Init /\ [][GenNext]_vars
 
 (* observation-only variables are not part of the fingerprint *)
 View == <<st, ghost>>
